@@ -118,6 +118,27 @@ def run_stacks(ctx):
         d = I.run_decode('BER', e[1], asn1Spec=c.spec)
         if d[0] != 'ok' or d[2] or not U.aval_eq(U.absval_top(d[1], c.T), c.want):
             ctx.prop_fail('the type does not accept its own encoding', m)
+        # string types: the same value given as a plain Python value with the type as guide, in segmented form - the
+        # outer identifiers are the type's tags, the segments carry the universal OCTET STRING tag, the type accepts it
+        if base_desc(c.T)[0] in ('octs', 'str'):
+            from pyasn1.codec.native import encoder as _ne
+            try:
+                py = _ne.encode(c.obj)
+            except Exception:
+                py = None
+            if py is not None and len(bytes(c.obj.asOctets())) >= 2:
+                for kw in (dict(maxChunkSize=1), dict(defMode=False, maxChunkSize=1)):
+                    eo = I.run_encode('BER', c.obj, **kw)
+                    ep = I.run_encode('BER', py, asn1Spec=c.spec, **kw)
+                    ctx.case(('stack-bare-segmented', str(kw), c.cty, c.cval), True)
+                    ctx.stats['segmented encodings of a Python value under a tag stack'] += 1
+                    mm = dict(m, options=kw, bytes=ep[1].hex() if ep[0] == 'ok' else ep[1], value_object_bytes=eo[1].hex() if eo[0] == 'ok' else eo[1])
+                    if eo[0] == 'ok' and ep[:2] != eo[:2]:
+                        ctx.prop_fail('identifier octets of the segmented encoding of a Python value (guided by the type) differ from those of the value object', mm)
+                    elif ep[0] == 'ok':
+                        dp = I.run_decode('BER', ep[1], asn1Spec=c.spec)
+                        if dp[0] != 'ok' or dp[2] or not U.aval_eq(U.absval_top(dp[1], c.T), c.want):
+                            ctx.prop_fail('the type does not accept the segmented encoding of a Python value it guided', mm)
         T2 = perturb(c.T, ctx.rng)
         if T2 is not None and py_tagset(T2) != py_tagset(c.T):
             try:
